@@ -100,6 +100,8 @@ Section Loop.
       PErr (User "SyntaxException" lineno col ("The `" +++ tstr t +++ "` keyword is not allowed. "))
     else
       let '(kw, cols, toks) := kw_part st t newstart in
+      let end_adj := dget_default Z.eqb cols (fst (tend t)) 0 in
+      let adjs := dsetdefault pos_eqb adjs (fst (tend t), snd (tend t) - end_adj) end_adj in
       if is_tok T_OP ";" t then PErr (User "SyntaxException" lineno col "Semi-colon statements not allowed")
       else
         '(fp', b1) <~ for_consume (m_fp st) t ;;
